@@ -27,4 +27,7 @@ def run(rep, fb, tier):
     from ..rules import lints as _lz
     _lz.rule_copyjson_pairs(rep, fb)
     _lz.rule_zero_field_depths(rep, fb)
+    from ..rules import lints2 as _l2
+    _l2.rule_form_array_simplify(rep, fb)
+    _l2.rule_dtype_case_methods(rep, fb)
     rep.units = fb.units
